@@ -51,6 +51,7 @@ func runExtra(r *common.Rand) {
 		run.Extra["crash_injection"] = "strace injection unavailable: K cases skipped"
 		run.Count("crash:strace-unavailable")
 	} else {
+		ioErrBudget = run.Scale(4, 40)
 		for _, cc := range fixedCrashes() {
 			runCrash(cc)
 		}
@@ -105,8 +106,8 @@ func replayExtra(c map[string]string) {
 			}
 			runConcBatch(batch)
 		}
-	case "K":
-		cc := crashCase{Kind: "K", K: -1}
+	case "K", "KE":
+		cc := crashCase{Kind: c["kind"], K: -1}
 		if v, ok := c["init"]; ok && v != "null" {
 			s := v
 			cc.Init = &s
